@@ -94,8 +94,11 @@ class TornadoEventLoop(EventLoop):
         Call all the registered idle callbacks.
         """
         try:
-            for callback in self._idle_callbacks.values():
-                callback()
+            for handle in list(self._idle_callbacks):
+                # an earlier callback of this pass may have removed this one
+                callback = self._idle_callbacks.get(handle)
+                if callback is not None:
+                    callback()
         finally:
             self._idle_asyncio_handle = None
 
